@@ -231,21 +231,26 @@ impl<C: ContentAddrStore> UnsealedState<C> {
     }
 
     fn move_action_fee_multiplier(&mut self, after_tip_901: bool, action: ProposerAction) {
+        // computed in unsigned 128-bit arithmetic: the multiplier can exceed what fits an i64
         let max_movement = if after_tip_901 {
-            ((self.fee_multiplier >> 7) as i64).max(2)
+            (self.fee_multiplier >> 7).max(2)
         } else {
-            (self.fee_multiplier >> 7) as i64
+            self.fee_multiplier >> 7
         };
-        let scaled_movement = max_movement * action.fee_multiplier_delta as i64 / 128;
+        let delta = action.fee_multiplier_delta;
+        // rounds toward zero, like the signed division it replaces
+        let scaled_movement = max_movement.saturating_mul(delta.unsigned_abs() as u128) / 128;
         log::debug!(
-            "changing fee multiplier {} by {}",
+            "changing fee multiplier {} by {}{}",
             self.fee_multiplier,
+            if delta < 0 { "-" } else { "" },
             scaled_movement
         );
-        if scaled_movement >= 0 {
-            self.fee_multiplier += scaled_movement as u128;
+        if delta >= 0 {
+            self.fee_multiplier = self.fee_multiplier.saturating_add(scaled_movement);
         } else {
-            self.fee_multiplier -= scaled_movement.unsigned_abs() as u128;
+            // never below zero: with the TIP-901 floor of 2 the step can exceed a multiplier of 0 or 1
+            self.fee_multiplier = self.fee_multiplier.saturating_sub(scaled_movement);
         }
     }
 
